@@ -15,13 +15,14 @@
 (* A mismatch is a model divergence (diagnostic), not a property verdict.   *)
 (***************************************************************************)
 EXTENDS Profile, Alphabet, Json, IOUtils
+W == INSTANCE Weave
 Trace == ndJsonDeserialize(IOEnv.TRACE)
-VARIABLES l, inp, par, nodes, cur, viol
-vars == <<l, inp, par, nodes, cur, viol>>
+VARIABLES l, inp, par, nodes, cur, gaps, viol
+vars == <<l, inp, par, nodes, cur, gaps, viol>>
 Ev == Trace[l]
 Is(e) == l <= Len(Trace) /\ Trace[l].e = e
 None == [k |-> "none"]
-Init == l = 1 /\ inp = <<>> /\ par = None /\ nodes = <<>> /\ cur = None /\ viol = {}
+Init == l = 1 /\ inp = <<>> /\ par = None /\ nodes = <<>> /\ cur = None /\ gaps = [k |-> "none"] /\ viol = {}
 Report(v) == viol' = v /\ IF v # {} THEN PrintT(<<"KVDIV", l, "progressive", v>>) ELSE TRUE
 Put(f, k, v) == [x \in (DOMAIN f) \cup {k} |-> IF x = k THEN v ELSE f[x]]
 Tol == 200
@@ -30,21 +31,27 @@ MaxAbs(q) == Mx3(FoldLeft(LAMBDA acc, x : IF Abs(x) > acc THEN Abs(x) ELSE acc, 
 Scaled(p) == [subm |-> [k \in 1..Len(p.subm) |-> p.subm[k] * K], gpo |-> p.gpo * K, gpe |-> p.gpe * K, tgpe |-> p.tgpe * K]
 
 TIn == /\ Is("Obj") /\ Ev.tag = "in" /\ l' = l + 1
-       /\ inp' = Ev.seqs /\ par' = None /\ nodes' = <<>> /\ cur' = None /\ viol' = {}
+       /\ inp' = Ev.seqs /\ par' = None /\ nodes' = <<>> /\ cur' = None /\ gaps' = [k |-> "none"] /\ viol' = {}
 TParams == /\ Is("Params") /\ l' = l + 1
            /\ par' = [k |-> "ok", subm |-> Ev.subm, gpo |-> Ev.gpo, gpe |-> Ev.gpe, tgpe |-> Ev.tgpe, biotype |-> Ev.biotype]
-           /\ UNCHANGED <<inp, nodes, cur>> /\ viol' = {}
+           /\ UNCHANGED <<inp, nodes, cur, gaps>> /\ viol' = {}
 (* the leaves: node k (0-based) is the k-th sequence of the canonical order *)
 TSorted == /\ Is("Sorted") /\ l' = l + 1
-           /\ nodes' = IF Len(Ev.ranks) = Len(inp) /\ Len(inp) > 0 THEN [k \in 0..(Len(inp) - 1) |-> [raw |-> inp[Ev.ranks[k + 1] + 1]]] ELSE <<>>
+           /\ nodes' = IF Len(Ev.ranks) = Len(inp) /\ Len(inp) > 0 THEN [k \in 0..(Len(inp) - 1) |-> [raw |-> inp[Ev.ranks[k + 1] + 1], leaves |-> {k}]] ELSE <<>>
+           \* gap vectors of the leaves (Weave): all zero before the first merge; ranks: where each leaf's row goes in the output
+           /\ gaps' = IF Len(Ev.ranks) = Len(inp) /\ Len(inp) > 0
+                      THEN [k |-> "ok", ranks |-> Ev.ranks, g |-> [k \in 0..(Len(inp) - 1) |-> [i \in 1..(Len(inp[Ev.ranks[k + 1] + 1]) + 1) |-> 0]]]
+                      ELSE [k |-> "none"]
            /\ UNCHANGED <<inp, par, cur>> /\ viol' = {}
 Alpha == IF par.biotype = 1 THEN A_DNA ELSE A_PROT23
 (* a node as Profile wants it; leaves are encoded when first used (the parameters arrive after Sorted) *)
-Node(x) == IF "raw" \in DOMAIN nodes[x] THEN Leaf(Scaled(par), [k \in 1..Len(nodes[x].raw) |-> Code(Alpha, nodes[x].raw[k])]) ELSE nodes[x]
+Node(x) == IF "raw" \in DOMAIN nodes[x]
+           THEN [Leaf(Scaled(par), [k \in 1..Len(nodes[x].raw) |-> Code(Alpha, nodes[x].raw[k])]) EXCEPT !.n = 1] @@ [leaves |-> nodes[x].leaves]
+           ELSE nodes[x]
 Budget(A, B) == (A.len + B.len) * A.n * B.n * MaxAbs(par) < 2000000
 
 TMergeBegin ==
-    /\ Is("MergeBegin") /\ l' = l + 1 /\ UNCHANGED <<inp, par, nodes>>
+    /\ Is("MergeBegin") /\ l' = l + 1 /\ UNCHANGED <<inp, par, nodes, gaps>>
     /\ IF par.k = "ok" /\ Ev.a \in DOMAIN nodes /\ Ev.b \in DOMAIN nodes
        THEN LET A == Node(Ev.a)
                 B == Node(Ev.b)
@@ -53,11 +60,11 @@ TMergeBegin ==
                     IN /\ cur' = [k |-> "merge", a |-> Ev.a, b |-> Ev.b, c |-> Ev.c, A |-> A, B |-> B, cx |-> cx, cells |-> {},
                                   bnd |-> Put(<<>>, <<0, cx.n, 0, cx.m>>, <<St(0, NEG, NEG), St(0, NEG, NEG)>>), nsplit |-> 0]
                        /\ viol' = {}
-               ELSE cur' = None /\ viol' = {} /\ PrintT(<<"KVSKIP", l, "progressive", "merge-too-large">>)
-       ELSE cur' = None /\ viol' = {} /\ PrintT(<<"KVSKIP", l, "progressive", "operand-unknown">>)
+               ELSE cur' = [k |-> "skipped"] /\ viol' = {} /\ PrintT(<<"KVSKIP", l, "progressive", "merge-too-large">>)
+       ELSE cur' = [k |-> "skipped"] /\ viol' = {} /\ PrintT(<<"KVSKIP", l, "progressive", "operand-unknown">>)
 
 THSplit ==
-    /\ Is("HSplit") /\ l' = l + 1 /\ UNCHANGED <<inp, par, nodes>>
+    /\ Is("HSplit") /\ l' = l + 1 /\ UNCHANGED <<inp, par, nodes, gaps>>
     /\ IF cur.k # "merge" THEN UNCHANGED cur /\ viol' = {}
        ELSE LET r == <<Ev.sa, Ev.ea, Ev.sb, Ev.eb>>
             IN IF r \notin DOMAIN cur.bnd
@@ -79,22 +86,39 @@ THSplit ==
 TMergeEnd ==
     /\ Is("MergeEnd") /\ l' = l + 1 /\ UNCHANGED <<inp, par>>
     /\ cur' = None
-    /\ IF cur.k # "merge" \/ cur.c # Ev.c THEN UNCHANGED nodes /\ viol' = {}
+    /\ IF cur.k # "merge" \/ cur.c # Ev.c
+       THEN UNCHANGED nodes /\ viol' = {} /\ gaps' = IF cur.k = "skipped" THEN [k |-> "none"] ELSE gaps
        ELSE LET o == Orient(cur.A, cur.B)
                 R == IF o.rows = "a" THEN cur.A ELSE cur.B
                 C == IF o.rows = "a" THEN cur.B ELSE cur.A
                 wf == WellFormedCells(R.len, C.len, cur.cells)
                 p == PathAB(cur.A, cur.B, cur.cells)
-            IN IF ~wf THEN UNCHANGED nodes /\ Report({"Progressive.cells-not-well-formed"})
-               ELSE /\ nodes' = Put(nodes, Ev.c, Joined(Scaled(par), cur.A, cur.B, p))
+            IN IF ~wf THEN UNCHANGED nodes /\ gaps' = [k |-> "none"] /\ Report({"Progressive.cells-not-well-formed"})
+               ELSE /\ nodes' = Put(nodes, Ev.c, Joined(Scaled(par), cur.A, cur.B, p) @@ [leaves |-> cur.A.leaves \cup cur.B.leaves])
+                    \* the members of both groups take the new gap columns (Weave: make_seq / update_gaps)
+                    /\ gaps' = IF gaps.k # "ok" THEN gaps
+                               ELSE LET va == W!GapVec(p, "a", cur.A.len)
+                                        vb == W!GapVec(p, "b", cur.B.len)
+                                    IN [gaps EXCEPT !.g = [s \in DOMAIN gaps.g |-> IF s \in cur.A.leaves THEN W!UpdateGaps(gaps.g[s], va)
+                                                                                    ELSE IF s \in cur.B.leaves THEN W!UpdateGaps(gaps.g[s], vb) ELSE gaps.g[s]]]
                     /\ PrintT(<<"KVMERGE", l, cur.cx.kind, cur.nsplit>>)
                     /\ Report(IF Len(p) # Ev.plen THEN {"Progressive.path-length-differs"} ELSE {})
 
+(* the rows kalign returns are the leaves rendered with the gap vectors accumulated over the merges *)
+TOut ==
+    /\ Is("Obj") /\ Ev.tag = "out" /\ l' = l + 1 /\ UNCHANGED <<inp, par, nodes, cur>>
+    /\ gaps' = [k |-> "none"]
+    /\ IF gaps.k # "ok" \/ Ev.null = 1 \/ Ev.final # 1 \/ Ev.rows # 1 \/ Len(Ev.seqs) # Len(inp)
+       THEN viol' = {} /\ PrintT(<<"KVSKIP", l, "progressive", "rows-not-compared">>)
+       ELSE /\ PrintT(<<"KVROWS", l, Len(inp)>>)
+            /\ Report(IF \E s \in DOMAIN gaps.g : W!Render(inp[gaps.ranks[s + 1] + 1], gaps.g[s]) # Ev.seqs[gaps.ranks[s + 1] + 1]
+                      THEN {"Progressive.returned-rows-differ-from-the-rendered-merges"} ELSE {})
+
 TOther ==
     /\ l <= Len(Trace)
-    /\ ~(Ev.e \in {"Params", "Sorted", "MergeBegin", "HSplit", "MergeEnd"} \/ (Ev.e = "Obj" /\ Ev.tag = "in"))
-    /\ l' = l + 1 /\ UNCHANGED <<inp, par, nodes, cur>> /\ viol' = {}
-Next == TIn \/ TParams \/ TSorted \/ TMergeBegin \/ THSplit \/ TMergeEnd \/ TOther
+    /\ ~(Ev.e \in {"Params", "Sorted", "MergeBegin", "HSplit", "MergeEnd"} \/ (Ev.e = "Obj" /\ Ev.tag \in {"in", "out"}))
+    /\ l' = l + 1 /\ UNCHANGED <<inp, par, nodes, cur, gaps>> /\ viol' = {}
+Next == TIn \/ TParams \/ TSorted \/ TMergeBegin \/ THSplit \/ TMergeEnd \/ TOut \/ TOther
 Spec == Init /\ [][Next]_vars
 Accepted == TLCGet("stats").diameter - 1 = Len(Trace)
 =============================================================================
